@@ -34,6 +34,28 @@ func defC11b(mode int) *ph.Def {
 	}}
 }
 
+// third tree: k required options at the root, all supplied through their environment variables, and three sibling
+// commands that each declare a required option of their own (per-node bookkeeping of required options must not be shared
+// between siblings)
+func defC11c(mode, k int) (*ph.Def, map[string]string) {
+	env := map[string]string{}
+	var opts []ph.OptDef
+	for i := 1; i <= k; i++ {
+		name := fmt.Sprintf("q%d", i)
+		opts = append(opts, ph.OptDef{Name: name, Kind: ph.Str, Required: true, ReqMsg: name + " needed", Env: "VERIF_C11_Q" + fmt.Sprint(i)})
+		env["VERIF_C11_Q"+fmt.Sprint(i)] = "x"
+	}
+	opts = append(opts, ph.OptDef{Name: "v", Kind: ph.Bool})
+	return &ph.Def{Mode: mode, Unknown: 0, Help: "help", Root: ph.CmdDef{Name: "prog",
+		Opts: opts,
+		Cmds: []*ph.CmdDef{
+			{Name: "c", Opts: []ph.OptDef{{Name: "creq", Kind: ph.Str, Required: true, ReqMsg: "creq of c", Env: "VERIF_C11_CREQ"}}},
+			{Name: "e", Opts: []ph.OptDef{{Name: "ereq", Kind: ph.Int, Required: true, ReqMsg: "ereq of e"}}},
+			{Name: "p", Opts: []ph.OptDef{{Name: "preq", Kind: ph.Str, Required: true, ReqMsg: "preq of p"}}},
+		},
+	}}, env
+}
+
 func c11Judge(pc *parserCase, verbose bool) ([]string, map[string]bool) {
 	flags := map[string]bool{}
 	p := ph.Build(pc.Def, pc.Env)
@@ -242,7 +264,7 @@ func init() {
 	register(&Check{
 		ID:        "C11",
 		QuickSecs: 300, ThoroSecs: 1500,
-		Rule: "input-space exploration: two trees with required options at the root, on a command and two levels down (inherited), with and without custom message, one bound to an environment variable; every argv of length <= L over 19 tokens (each required option by name, alias, abbreviation; command names; help option, its abbreviation and alias; help command; topics; positional) x 3 modes x environment {unset, set}; " +
+		Rule: "input-space exploration: two trees with required options at the root, on a command and two levels down (inherited), with and without custom message, one bound to an environment variable; every argv of length <= L over 19 tokens (each required option by name, alias, abbreviation; command names; help option, its abbreviation and alias; help command; topics; positional) x 3 modes x environment {unset, set}, plus a tree with k in {1,2,3,5} required root options supplied through the environment and three sibling commands with a required option each; " +
 			"Parse / Dispatch errors (errors.Is ErrorParsing, custom text), Writer contents (help text of the right level) and instrumented CommandFns compared with the reference model; every argv of length <= 3 that supplies all required options is also given to a program object that already served one of 6 earlier rounds and must again run its function without a required-option error; distinct_nontrivial = distinct in-domain cases",
 		Assume: []string{"other trees and argv longer than L are not covered"},
 		Run: func(c *RunCtx) {
@@ -261,6 +283,16 @@ func init() {
 						defs = append(defs, d)
 						envOf[d] = env
 					}
+				}
+			}
+			for _, k := range []int{1, 2, 3, 5} {
+				for _, creq := range []bool{false, true} {
+					d, env := defC11c(0, k)
+					if creq {
+						env["VERIF_C11_CREQ"] = "fromenv"
+					}
+					defs = append(defs, d)
+					envOf[d] = env
 				}
 			}
 			c.Res.Bounds = map[string]any{"L": depth, "alphabet": alpha, "definitions": len(defs)}
